@@ -39,13 +39,17 @@ OBLIGATIONS = [
     "VgiVerif.C36.C36_secret",
     "VgiVerif.C36.C36_disabled",
     "VgiVerif.C36.C36_statuses",
+    "VgiVerif.C36.C36_403_any_state",
+    "VgiVerif.C36.C36_403_history",
+    "VgiVerif.C36.C36_serve_authorized",
 ]
 TRUSTED = [
     "CPython json.loads (body -> invalid / non-object / object with a `token` member) and json.dumps: the model starts from the parsed body",
     "Falcon: routing of POST {prefix}/__introspect_token__, rendering of HTTPServiceUnavailable / HTTPInternalServerError / uncaught "
     "exceptions, bounded_stream; the auth middleware that produces the AuthContext (C20/C21)",
     "CPython re as mirrored by the regex kit (validated differentially on every run)",
-    "the per-caller rate limiter is modelled as one boolean per request (429 is outside the property)",
+    "time.monotonic is replaced by a harness clock (module global `time` of _introspect) for request histories; threading.Lock of the "
+    "limiter is not modelled (requests are sequential)",
 ]
 RULE = (
     "finite table: caller classes {anonymous, authenticated+allow-listed, authenticated+other (several near misses), unauthenticated "
@@ -54,9 +58,12 @@ RULE = (
     "missing key, duplicate key} x resolver outcomes {identity with ttl in ints, bools, floats incl. NaN/inf/-0.0, None, str, list; None; "
     "unavailable (several retry_after); other exceptions} with several concrete instances per class; quick = the full product for "
     "authorised callers x valid subjects and a covering sample elsewhere, thorough = the full product; a case is non-trivial when the "
-    "caller is authorised or the body is valid; distinct by (app, caller, body, outcome)"
+    "caller is authorised or the body is valid; distinct by (app, caller, body, outcome); plus request HISTORIES on one fresh resource "
+    "instance per history: limits {0,1,2,3,5,20(default)} x shapes {burst of limit+1..12 requests from one refused caller, mixed "
+    "interleavings of allow-listed and refused callers, fill-the-budget-then-window-edge (dt 1022/1023/1024 ticks), refused burst then "
+    "allow-listed caller, callers sharing the empty key} x start clocks {0, <window, >window} under a controlled monotonic clock"
 )
-PARTIAL = ["the 429 branch is modelled (position only) but not part of the property"]
+PARTIAL = ["429 for an allow-listed caller over its budget is modelled (stateful fixed-window limiter) and checked by K, but is not part of the property"]
 MANIFEST = {
     "level": "proof",
     "text": "Lean theorems about an interpreter over the guard list extracted from on_post (source order, statuses, error codes), "
@@ -275,27 +282,55 @@ class Rig:
             "disabled": dict(authenticate=authenticate),
         }
         self.snap_ok = True
-        for name, kw in specs.items():
+
+        def build(**kw: Any) -> Any:
             app = make_wsgi_app(server, **common, **kw)
             try:
                 app.add_middleware(Snap())
             except Exception:  # noqa: BLE001
                 self.snap_ok = False
-            self.apps[name] = falcon.testing.TestClient(app)
+            return falcon.testing.TestClient(app)
+
+        for name, kw in specs.items():
+            self.apps[name] = build(**kw)
+        # a fresh resource instance (fresh rate-limiter state) with a given per-second limit, for request sequences
+        self.fresh_app = lambda limit: build(authenticate=authenticate, introspect_resolver=resolver, introspect_principals=ALLOW,
+                                             introspect_rate_limit=limit)
         self.AuthUnavailableError = AuthUnavailableError
+        # controlled clock: `_RateLimiter.allow` reads `time.monotonic()` through the module global `time`
+        import vgi_rpc.http.server._introspect as intro
+
+        self._intro = intro
+        self._real_time = intro.time
+        box["now_ticks"] = None
+        real = intro.time
+
+        class FakeTime:
+            def monotonic(self) -> float:
+                t = box["now_ticks"]
+                return real.monotonic() if t is None else t / 1024.0
+
+            def __getattr__(self, name: str) -> Any:
+                return getattr(real, name)
+
+        intro.time = FakeTime()
 
     def close(self) -> None:
+        self._intro.time = self._real_time
         for lg, level, handlers, propagate, disabled in self.loggers:
             lg.setLevel(level)
             lg.handlers = handlers
             lg.propagate = propagate
             lg.disabled = disabled
 
-    def post(self, app: str, caller: dict[str, Any], raw: bytes, outcome: dict[str, Any], ctype: str | None = "application/json") -> dict[str, Any]:
+    def post(self, app: Any, caller: dict[str, Any], raw: bytes, outcome: dict[str, Any], ctype: str | None = "application/json",
+             now_ticks: int | None = None) -> dict[str, Any]:
+        """`app`: a name in self.apps, or a client from self.fresh_app; `now_ticks`: the monotonic clock (1/1024 s) seen by the limiter."""
         box = self.box
-        box.update(reads=0, reads_at_response=None, calls=[], outcome=outcome, caller=caller)
+        box.update(reads=0, reads_at_response=None, calls=[], outcome=outcome, caller=caller, now_ticks=now_ticks)
         headers = {"Content-Type": ctype} if ctype else {}
-        r = self.apps[app].simulate_post(ENDPOINT, body=raw, headers=headers, extras={"wsgi.input": _Track(raw, box), "wsgi.errors": io.StringIO()})
+        client = self.apps[app] if isinstance(app, str) else app
+        r = client.simulate_post(ENDPOINT, body=raw, headers=headers, extras={"wsgi.input": _Track(raw, box), "wsgi.errors": io.StringIO()})
         hdr = {k.lower(): v for k, v in r.headers.items()}
         return {
             "status": r.status_code,
@@ -407,8 +442,21 @@ class State:
         self.max_token = 4096
         self.success_keys = ["principal", "token_name", "ttl_seconds"]
         self.pending: list[tuple[dict[str, Any], dict[str, Any], dict[str, Any]]] = []
+        self.pending_seq: list[tuple[dict[str, Any], dict[str, Any], list[dict[str, Any]]]] = []
 
     def flush(self, ctx: Any) -> None:
+        if ctx.driver is not None and self.pending_seq:
+            res = ctx.driver.batch([("C36.serve_seq", a) for _c, a, _g in self.pending_seq])
+            for (case, _a, got), ms in zip(self.pending_seq, res):
+                want = [canon_model(m) for m in ms]
+                for w, g in zip(want, got):
+                    if g["body_read"] is None:
+                        w["body_read"] = None
+                if want != got:
+                    i = next((j for j, (w, g) in enumerate(zip(want, got)) if w != g), 0)
+                    ctx.mismatch({**case, "events": case["events"][: i + 1]}, want[i], got[i],
+                                 f"history, request {i + 1}: model (stateful rate limiter + guards) vs implementation")
+            self.pending_seq = []
         if ctx.driver is None or not self.pending:
             return
         res = ctx.driver.batch([("C36.post", a) for _c, a, _g in self.pending])
@@ -447,22 +495,33 @@ def _echo(token: str | None, obs: dict[str, Any], o: dict[str, Any]) -> str | No
 
 
 def run_case(ctx: Any, rig: Rig, st: State, app: str, caller: dict[str, Any], body: dict[str, Any], outcome: dict[str, Any],
-             ctype: str | None = "application/json") -> None:
+             ctype: str | None = "application/json", seq: dict[str, Any] | None = None) -> dict[str, Any] | None:
+    """One request.  `seq` = {"client", "now", "case"}: the request is one step of a history against one resource instance
+    (app == "seq"); the case reported on failure is the history up to and including this step; K is done per history."""
     raw = body["raw"]
     idx = next((i for i, b in enumerate(BODIES) if b is body), None)
     case = {"app": app, "caller": caller, "body_index": idx, "body_hex": raw.hex() if idx is None else None, "body_cls": body["cls"],
             "body_preview": raw[:80].decode("latin-1"), "outcome": _outcome_case(outcome), "ctype": ctype}
+    if seq is not None:
+        case = seq["case"]
     req, token = parse_body(raw, st.max_body)
     authorised = app != "noauth" and caller["mode"] == "auth" and (caller.get("principal") or "") in ALLOW
     unencodable = req["parsed"][0] == "object" and req["parsed"][1][0] == "unencodable"
     malformed = token is None or token == "" or len(token) > st.max_token or unencodable or req["content_length"] > st.max_body
     strict_jws = bool(token is not None and not malformed and _STRICT_JWS.match(token))
     nl_jws = bool(token is not None and not malformed and not strict_jws and token.endswith("\n") and _STRICT_JWS.match(token[:-1]))
-    ctx.case(case, nontrivial=authorised or not malformed,
-             tags=(f"app:{app}", f"caller:{'authorised' if authorised else caller['mode']}", f"body:{body['cls']}",
-                   f"outcome:{outcome_key(outcome)}", "subject:" + ("malformed" if malformed else "jws" if strict_jws else "jws+newline" if nl_jws else "opaque")))
-    obs = rig.post(app, caller, raw, outcome, ctype)
+    tags = (f"app:{app}", f"caller:{'authorised' if authorised else caller['mode']}", f"body:{body['cls']}",
+            f"outcome:{outcome_key(outcome)}", "subject:" + ("malformed" if malformed else "jws" if strict_jws else "jws+newline" if nl_jws else "opaque"))
+    if seq is None:
+        ctx.case(case, nontrivial=authorised or not malformed, tags=tags)
+        obs = rig.post(app, caller, raw, outcome, ctype)
+    else:
+        ctx.tag(*tags)
+        obs = rig.post(seq["client"], caller, raw, outcome, ctype, now_ticks=seq["now"])
+        seq["obs"] = obs
+        seq["req"] = req
     status = obs["status"]
+    ctx.tag(f"status:{status}")
 
     # ---------------- O: the property on the implementation -----------------------------------------
     where = _echo(token, obs, outcome)
@@ -482,14 +541,21 @@ def run_case(ctx: Any, rig: Rig, st: State, app: str, caller: dict[str, Any], bo
         elif st.ref_disabled[0] != fp:
             _fail(ctx, case, "C36:disabled-not-uniform", f"not_enabled answers differ: {fp!r} vs {st.ref_disabled[0]!r}")
             return
-    elif app == "limited":
-        pass  # 429 is outside the property: K only
     elif not authorised:
+        # on every live app, whatever its rate limit and whatever was sent before: the allow-list guard comes first
         if status != 403:
-            _fail(ctx, case, f"C36:caller-not-refused:{caller['mode']}:{status}", f"caller outside the allow-list got {status} {obs['content'][:80]!r}")
+            hist = "" if seq is None else f" (request {seq['index'] + 1} of a history, limit {seq['limit']}/s)"
+            _fail(ctx, case, f"C36:caller-not-refused:{caller['mode']}:{status}" + ("" if seq is None else ":after-history"),
+                  f"caller outside the allow-list got {status} {obs['content'][:80]!r}{hist}")
             return
         if obs["calls"]:
             _fail(ctx, case, "C36:resolver-consulted-for-refused-caller", f"resolver consulted ({len(obs['calls'])}x) for a caller outside the allow-list")
+            return
+    elif status == 429 and app in ("limited", "seq"):
+        # the per-caller limit (429 for an *authorised* caller over its budget) is outside the property: K only;
+        # still, nothing may have been read or resolved
+        if obs["calls"]:
+            _fail(ctx, case, "C36:resolver-consulted-for-rate-limited-caller", "resolver consulted for a request answered 429")
             return
     else:
         kind = outcome["kind"]
@@ -546,6 +612,8 @@ def run_case(ctx: Any, rig: Rig, st: State, app: str, caller: dict[str, Any], bo
                 return
 
     # ---------------- K: model vs implementation (batched; see State.flush) -----------------------------
+    if seq is not None:
+        return obs
     if ctx.driver is not None:
         st.pending.append((case, {
             "cfg": {"allow": [s2j(a) for a in ALLOW], "limiter": app != "limited"},
@@ -556,6 +624,7 @@ def run_case(ctx: Any, rig: Rig, st: State, app: str, caller: dict[str, Any], bo
         }, canon_impl(obs, st.success_keys)))
         if len(st.pending) >= 4000:
             st.flush(ctx)
+    return obs
 
 
 def _json_or_none(b: bytes) -> Any:
@@ -579,6 +648,93 @@ def _outcome_uncase(o: dict[str, Any]) -> dict[str, Any]:
     t = o["ttl"]
     v = float(t["float"]) if "float" in t else int(t["int"]) if "int" in t else t["json"]
     return {**o, "ttl": v}
+
+
+# ------------------------------------------------------------------------------------------ histories on one resource instance
+
+REFUSED = [c for c in CALLERS if not (c["mode"] == "auth" and (c.get("principal") or "") in ALLOW)]
+ALLOWED = [c for c in CALLERS if c not in REFUSED]
+DTS = [0, 0, 0, 1, 1, 5, 200, 512, 1023, 1024, 1025, 2500]        # ticks of 1/1024 s; the limiter window is 1024
+LIMITS = [0, 1, 2, 3, 5, 20]                                       # 20 is make_wsgi_app's default
+
+
+def _ev(dt: int, caller: dict[str, Any], body_index: int = 0, outcome: dict[str, Any] | None = None) -> dict[str, Any]:
+    return {"dt": dt, "caller": caller, "body_index": body_index, "outcome": _outcome_case(outcome or OUTCOMES[0])}
+
+
+MALLORY = {"mode": "auth", "principal": "mallory@example.com"}
+PROXY = {"mode": "auth", "principal": "proxy@example.com"}
+SEQ_CORPUS: list[dict[str, Any]] = [
+    {"limit": 2, "start": 5000, "events": [_ev(0, MALLORY) for _ in range(5)]},
+    {"limit": 20, "start": 5000, "events": [_ev(1 if i % 7 == 0 else 0, MALLORY) for i in range(30)]},      # default limit, burst of 30
+    {"limit": 1, "start": 0, "events": [_ev(0, {"mode": "anon"}), _ev(0, {"mode": "anon"}), _ev(0, {"mode": "auth", "principal": ""}),
+                                        _ev(0, {"mode": "auth", "principal": None})]},                  # all share the key ""
+    {"limit": 2, "start": 7000, "events": [_ev(0, PROXY), _ev(0, PROXY), _ev(0, PROXY), _ev(0, MALLORY), _ev(0, MALLORY), _ev(0, MALLORY),
+                                           _ev(1023, PROXY), _ev(1, PROXY), _ev(0, {"mode": "unauth", "principal": "proxy@example.com"})]},
+    {"limit": 0, "start": 3, "events": [_ev(0, MALLORY), _ev(0, PROXY), _ev(2048, {"mode": "anon"})]},
+    {"limit": 3, "start": 100, "events": [_ev(0, {"mode": "unauth", "principal": "proxy@example.com"}) for _ in range(5)] + [_ev(0, PROXY)] * 4},
+]
+
+
+def gen_history(rng: Any) -> dict[str, Any]:
+    limit = rng.choice(LIMITS)
+    start = rng.choice([0, 100, 1023, 5000, 123456])
+    shape = rng.choice(["burst-refused", "burst-refused", "mixed", "mixed", "fill-then-edge", "refused-then-allowed"])
+    good_bodies = [i for i, b in enumerate(BODIES) if b["cls"] == "opaque"][:4]
+    any_body = lambda: rng.choice(good_bodies) if rng.random() < 0.75 else rng.randrange(len(BODIES))  # noqa: E731
+    any_out = lambda: OUTCOMES[0] if rng.random() < 0.6 else rng.choice(OUTCOMES)  # noqa: E731
+    evs: list[dict[str, Any]] = []
+    if shape == "burst-refused":
+        who = rng.choice(REFUSED)
+        for _ in range(limit + rng.randint(1, 12)):
+            evs.append(_ev(rng.choice([0, 0, 0, 1, 3]), who, any_body(), any_out()))
+        if rng.random() < 0.5:
+            evs.append(_ev(rng.choice(DTS), rng.choice(ALLOWED), any_body(), any_out()))
+            evs.append(_ev(0, who, any_body(), any_out()))
+    elif shape == "mixed":
+        pool = ALLOWED + rng.sample(REFUSED, 3)
+        for _ in range(rng.randint(3, 2 * limit + 14)):
+            evs.append(_ev(rng.choice(DTS), rng.choice(pool), any_body(), any_out()))
+    elif shape == "fill-then-edge":
+        who = rng.choice(ALLOWED)
+        other = rng.choice(REFUSED)
+        for _ in range(limit + 1):
+            evs.append(_ev(0, who, any_body(), any_out()))
+        evs.append(_ev(0, other, any_body(), any_out()))
+        evs.append(_ev(rng.choice([1022, 1023, 1024]), who, any_body(), any_out()))
+        evs.append(_ev(rng.choice([0, 1, 2]), who, any_body(), any_out()))
+        evs.append(_ev(0, other, any_body(), any_out()))
+    else:
+        other = rng.choice(REFUSED)
+        for _ in range(limit + rng.randint(1, 6)):
+            evs.append(_ev(0, other, any_body(), any_out()))
+        who = rng.choice(ALLOWED)
+        for _ in range(limit + 2):
+            evs.append(_ev(rng.choice([0, 0, 1]), who, any_body(), any_out()))
+    return {"limit": limit, "start": start, "events": evs, "shape": shape}
+
+
+def run_history(ctx: Any, rig: Rig, st: State, hist: dict[str, Any]) -> None:
+    """A history of requests against ONE fresh resource instance under a controlled monotonic clock.
+    O per request (a refused caller's 403 must not depend on what was sent before); K on the whole history vs `C36.serve_seq`."""
+    limit, now = hist["limit"], hist["start"]
+    client = rig.fresh_app(limit)
+    events = hist["events"]
+    base = {"app": "seq", "limit": limit, "start": hist["start"]}
+    ctx.case({**base, "events": events}, nontrivial=True,
+             tags=("k:history", f"history:limit={limit}", f"history:shape={hist.get('shape', 'corpus')}", f"history:len={min(len(events) // 10 * 10, 40)}+"))
+    wire, got = [], []
+    for i, ev in enumerate(events):
+        now += ev["dt"]
+        body = BODIES[ev["body_index"]] if ev.get("body_index") is not None else {"cls": ev.get("body_cls", "random"), "raw": bytes.fromhex(ev["body_hex"])}
+        outcome = _outcome_uncase(ev["outcome"])
+        seq = {"client": client, "now": now, "index": i, "limit": limit, "case": {**base, "events": events[: i + 1]}}
+        run_case(ctx, rig, st, "seq", ev["caller"], body, outcome, seq=seq)
+        wire.append({"now": now, "caller": caller_wire("seq", ev["caller"]), "req": seq["req"], "outcome": outcome_wire(rig, outcome)})
+        got.append(canon_impl(seq["obs"], st.success_keys))
+    rig.box["now_ticks"] = None
+    if ctx.driver is not None:
+        st.pending_seq.append(({**base, "events": events}, {"allow": [s2j(a) for a in ALLOW], "per_window": limit, "events": wire}, got))
 
 
 # ------------------------------------------------------------------------------------------ jws regex neighbourhood (K)
@@ -665,9 +821,14 @@ def run(ctx: Any) -> None:
                 if full or (i + ci) % 3 == 0:
                     run_case(ctx, rig, st, "disabled", c, b, OUTCOMES[(i + ci) % len(OUTCOMES)])
         # the limiter's position (K only)
-        for c in CALLERS[:4]:
+        for c in CALLERS:
             for b in (BODIES[0], BODIES[8], BODIES[-1]):
                 run_case(ctx, rig, st, "limited", c, b, OUTCOMES[0])
+        # histories: bursts / interleavings on one resource instance under a controlled clock
+        for h in SEQ_CORPUS:
+            run_history(ctx, rig, st, h)
+        for _ in range(ctx.budget(120, 2500)):
+            run_history(ctx, rig, st, gen_history(rng))
         # content types do not matter to the endpoint
         for ct in (None, "text/plain", "application/vnd.apache.arrow.stream", "application/json; charset=utf-8"):
             for b in (BODIES[0], BODIES[9], BODIES[-2]):
@@ -688,6 +849,18 @@ def run(ctx: Any) -> None:
 def replay(ctx: Any, case: dict[str, Any]) -> None:
     if "jws" in case:
         k_jws(ctx, [case["jws"]])
+        return
+    if case.get("app") == "seq":
+        rig = Rig()
+        st = State()
+        try:
+            if ctx.driver is not None:
+                k = ctx.driver.call("C36.constants", {})
+                st.max_body, st.max_token, st.success_keys = k["max_body"], k["max_token"], k["success_keys"]
+            run_history(ctx, rig, st, case)
+            st.flush(ctx)
+        finally:
+            rig.close()
         return
     rig = Rig()
     st = State()
